@@ -13,7 +13,7 @@ def main():
     cfg = gen_config()
     res = Result(PID)
     T = tier()
-    N, K = (8, 5) if T == "quick" else (11, 7)
+    N, K = (8, 5) if T == "quick" else (11, 6)    # K = 7: the longest histories had not finished after 85 min
     shapes = trees.rb_trees_upto(N)
     inst = [("step", s, op) for s in shapes for op in ("insert", "remove", "search") if not (s is None and op == "remove")]
     if T == "quick":        # the deepest removal fix-up cases need 9+ nodes: remove only, from every valid tree with 9 or 10 nodes
@@ -29,7 +29,7 @@ def main():
     res.assumptions = ["llsym executes the clang-14 -O0 + sroa,mem2reg IR of src/rbt.c; validated each run against the native build on sampled paths",
                        "A_ASSUME(...) in a_rbt_remove_adjust is treated as an assertion (llvm.assume operand must be implied by the path condition)"]
     res.stubs = ["cmp callback: Python hook returning the symbolic sign of key(a) - key(b) (C replay: cmp_key)"]
-    TB = 900 if T == "quick" else 6000
+    TB = 900 if T == "quick" else 3000
     e2.run_e2(res, cfg, ["rbt.c"], inst, treecheck.builder, group="step", validate_every=23, time_budget=TB)
     e2.run_e2(res, cfg, ["rbt.c"], hist, treecheck.builder, group="history", validate_every=5, time_budget=TB)
     e2.finish_coverage(res, must_cover=["a_rbt_insert", "a_rbt_remove", "a_rbt_search", "a_rbt_insert_adjust"],
